@@ -5,13 +5,13 @@ from evalutil import *
 
 ID = "C03"
 LEVEL = "proof"
-MODULES = ["H3Proofs.Props.C03"]
+MODULES = ["H3Proofs.Props.C03", "H3Proofs.Props.C03Enum"]
 THEOREMS = "auto"
 ASSUMPTIONS = ["the centre round trip latLngToCell(cellToLatLng h) = h involves the gnomonic projection (acos, tan, "
                "atan2): it is NOT a theorem; the model answers `rt h` by the specification (ok h for valid h), so the "
                "correspondence stream is the property itself, exercised on enumerated / structured cells",
                "the integer half h3ToFaceIjk / faceIjkToH3 is modelled and compared on the same cells"]
-NOT_PROVED = ["centre round trip (float leg)", "cells_enum = valid cells (membership) — only the counts are theorems so far"]
+NOT_PROVED = ["centre round trip (float leg)", "cells_enum = set of all valid cells (membership via layoutSpec) — the count, the resolution and the descent from the 122 res-0 cells are theorems; the identification with isValidCell is checked by the countall stream"]
 EXPLANATION = ("closed-form counts and the pentagon set are theorems over regenerated tables; the enumeration by the "
                "library's own iterator is compared with the model's; the round trip is run on all cells of the coarse "
                "resolutions, every pentagon neighbourhood, walks along all 30 icosahedron edges at every resolution")
@@ -88,6 +88,10 @@ _CACHE = {}
 def streams(rng, tier):
     ops = [f"numcells {r}" for r in range(-2, 18)] + [f"pentagons {r}" for r in range(-1, 17)] + ["res0", "counts"]
     ops += [f"countall {r}" for r in range(0, 3 if tier == "quick" else 5)]
+    # the specification-level enumeration (subject of cells_enum_length): children of every res-0 cell
+    for bc in range(122):
+        for r in range(0, 3 if tier == "quick" else 4):
+            ops.append(f"childrenS {gen.hx(gen.mkcell(0, bc, []))} {r}")
     return [("counts-enumeration", ops)]
 
 
